@@ -34,8 +34,14 @@ RunClauses(e) ==
     \cup (IF e.mode = "heat" /\ e.oclass = "returned" /\ ~VecNear(e.tvec, e.seq_tvec, e.ttol)
           THEN {<<"C12.heat_differs_from_sequential", "">>} ELSE {})
 
+(* `before`/`after`: digests of everything but the float cells; `fclass`: for each table whose float *)
+(* cells differ, the class of the difference (harness/hist.float_diff_class).                       *)
+PathClass(p) == IF p = "pickle" THEN "pickle" ELSE "json"
 SaveLoadClauses(e) ==
-    {<<"C15.digest_changed", e.path, k>> : k \in Changed(e.before, e.after)}
+    {<<"C15.digest_changed", PathClass(e.path), k>> : k \in Changed(e.before, e.after)}
+    \cup {<<"C15.float_values_changed", PathClass(e.path), x[1]>> : x \in {x \in ToSet(e.fclass) : x[2] = "other"}}
+    \cup (IF \E x \in ToSet(e.fclass) : x[2] = "inf2nan" THEN {<<"C15.infinity_lost", PathClass(e.path), "">>} ELSE {})
+    \cup (IF \E x \in ToSet(e.fclass) : x[2] = "lt1e-14" THEN {<<"C15.float_precision", PathClass(e.path), "">>} ELSE {})
     \cup (IF e.raised # "" THEN {<<"C15.raised", e.path, e.raised>>} ELSE {})
 
 Fail(c, f) == IF f = {} THEN TRUE
